@@ -3,5 +3,6 @@ CONSTANTS
   N = 3
   D = 3
   Gaps = FALSE
+  Forks = TRUE
 INVARIANT Dump
 CHECK_DEADLOCK FALSE
